@@ -173,11 +173,27 @@ pub struct Built {
     /// a second admissible reading of "current item" (cw20 accounts whose balance was emptied: the
     /// property does not say whether they are still items). A listing may follow either reading,
     /// but must follow one of them completely.
-    pub alt: Option<Vec<(Key, Value)>>,
+    pub alt: Option<Alt>,
+    /// keys whose page entry is compared only on the fields the expected entry names (e.g. a
+    /// revoked allowance listed with amount 0: whatever expiry the listing shows)
+    pub loose: Vec<Key>,
+    /// for a store with two listings over the same data (cw20 owner / spender listing after
+    /// revocations): does the OTHER listing show entries that only the alternative reading calls
+    /// items? (None: it has no such entries to show). Both listings must follow the same reading.
+    pub sibling_follows_alt: Option<bool>,
     /// number of point queries made to confirm the key set
     pub point_queries: u64,
     /// number of entry-point calls used to build the store
     pub build_calls: u64,
+}
+
+/// an alternative reading of which stored entries are current items
+#[derive(Clone)]
+pub struct Alt {
+    pub expected: Vec<(Key, Value)>,
+    /// entries outside this reading are dropped by the listing (short non-empty pages tolerated)
+    pub filtered: bool,
+    pub loose: Vec<Key>,
 }
 
 impl Built {
@@ -189,10 +205,12 @@ impl Built {
             w: self.w.clone(),
             contract: self.contract.clone(),
             args: self.args.clone(),
-            expected: alt,
+            expected: alt.expected,
             stored: self.stored.clone(),
-            filtered: true,
+            filtered: alt.filtered,
             alt: None,
+            loose: alt.loose,
+            sibling_follows_alt: self.sibling_follows_alt,
             point_queries: self.point_queries,
             build_calls: self.build_calls,
         })
@@ -278,6 +296,8 @@ impl B {
             stored,
             filtered: false,
             alt: None,
+            loose: vec![],
+            sibling_follows_alt: None,
             point_queries: self.points,
             build_calls: self.calls,
         }
@@ -430,7 +450,7 @@ fn cw20_accounts_emptied(n: usize) -> Result<Built, String> {
     let stored = all.iter().map(|(k, _)| k.clone()).collect();
     let mut built = b.done(c, Map::new(), all, stored);
     if !emptied.is_empty() {
-        built.alt = Some(funded);
+        built.alt = Some(Alt { expected: funded, filtered: true, loose: vec![] });
     }
     Ok(built)
 }
@@ -667,6 +687,10 @@ fn cw20_revoked(n: usize, by_spender: bool) -> Result<Built, String> {
         in_ref[*i] = 5;
     }
     let mut expected = vec![];
+    // second reading: a fully revoked pair is still an item, with amount exactly 0 (any expiry)
+    let mut with_zero = vec![];
+    let mut revoked = vec![];
+    let who = if by_spender { "owner" } else { "spender" };
     for (addr, i) in &sorted {
         let (q, want) = if by_spender {
             (json!({"allowance": {"owner": addr, "spender": p}}), in_ref[*i])
@@ -678,13 +702,58 @@ fn cw20_revoked(n: usize, by_spender: bool) -> Result<Built, String> {
             return Err(machinery("allowance (0 = revoked)", addr, &r));
         }
         if want != 0 {
-            let who = if by_spender { "owner" } else { "spender" };
-            expected.push((Key::S(addr.clone()), json!({who: addr, "allowance": r["allowance"], "expires": r["expires"]})));
+            let item = json!({who: addr, "allowance": r["allowance"], "expires": r["expires"]});
+            expected.push((Key::S(addr.clone()), item.clone()));
+            with_zero.push((Key::S(addr.clone()), item));
+        } else {
+            with_zero.push((Key::S(addr.clone()), json!({who: addr, "allowance": "0"})));
+            revoked.push(Key::S(addr.clone()));
         }
     }
+    // which reading does the other listing of this store follow?
+    let other_revoked: Vec<String> = sorted
+        .iter()
+        .filter(|(_, i)| if by_spender { out_ref[*i] == 0 } else { in_ref[*i] == 0 })
+        .map(|(a, _)| a.clone())
+        .collect();
+    let sibling = if other_revoked.is_empty() {
+        None
+    } else {
+        let (q, arg, key) = if by_spender { ("all_allowances", "owner", "spender") } else { ("all_spender_allowances", "spender", "owner") };
+        let listed = walk_keys(&b.w, &c, q, arg, &p, "allowances", key, n + 3)?;
+        Some(listed.iter().any(|k| other_revoked.contains(k)))
+    };
     let stored = sorted.iter().map(|(s, _)| Key::S(s.clone())).collect();
     let args = if by_spender { args(&[("spender", json!(p))]) } else { args(&[("owner", json!(p))]) };
-    Ok(b.done(c, args, expected, stored))
+    let mut built = b.done(c, args, expected, stored);
+    if !revoked.is_empty() {
+        built.alt = Some(Alt { expected: with_zero, filtered: false, loose: revoked });
+    }
+    built.sibling_follows_alt = sibling;
+    Ok(built)
+}
+
+/// all keys a listing returns when walked with limit 30 (string keys)
+#[allow(clippy::too_many_arguments)]
+fn walk_keys(w: &World, c: &str, q: &str, arg: &str, arg_val: &str, items: &str, key: &str, max_pages: usize) -> Result<Vec<String>, String> {
+    let mut out = vec![];
+    let mut cursor: Option<String> = None;
+    for _ in 0..max_pages {
+        let mut m = Map::new();
+        m.insert(arg.to_string(), json!(arg_val));
+        m.insert("limit".to_string(), json!(30));
+        if let Some(cu) = &cursor {
+            m.insert("start_after".to_string(), json!(cu));
+        }
+        let r = query(w, c, &json!({ q: Value::Object(m) }))?;
+        let page: Vec<String> = r[items].as_array().cloned().unwrap_or_default().iter().filter_map(|it| it[key].as_str().map(|s| s.to_string())).collect();
+        match page.last() {
+            None => break,
+            Some(l) => cursor = Some(l.clone()),
+        }
+        out.extend(page);
+    }
+    Ok(out)
 }
 
 fn cw1_instantiate(b: &mut B, c: &str, more_admins: &[String]) -> Result<String, String> {
